@@ -20,6 +20,38 @@ CHECKS = {
             'vf.ref.varint is trusted (self-tested on the protocol examples); '
             'step budget 20000 line events stands for non-termination.',
             'DESIGN.md §3 C03'),
+    'C01': ('exploration',
+            'runtime monitor: scripted-cut stream under the real reader, '
+            'recording socket under the real writer; three writer/reader '
+            'pairings with an independent framing + CFB8 reference',
+            'Generated packet sequences x thresholds x cipher x partitions '
+            '(every single cut, cut pairs for short streams, 1-byte, random) '
+            'through real writer/reader and the reference in all three '
+            'pairings; sequence equality gives no loss/dup/merge/split/reorder.',
+            'vf.ref.framing/cfb8 trusted (self-tested); generic packets '
+            'compared by id on the real reader.',
+            'DESIGN.md §3 C01'),
+    'C05': ('exploration',
+            'runtime monitor: write->frame parse->read of every class at every '
+            'supported version with type-aware field oracle; generated packet '
+            'definitions (programs)',
+            'All 250 supported versions x all classes of the 8 tables x value '
+            'sets incl. every variant of the custom codecs; id on the wire, '
+            'exact consumption, field equality, repr; 400/4000 generated '
+            'field-list definitions. A custom codec without generator makes '
+            'the run inconclusive.',
+            'wire-representable domain per field as documented in DESIGN.md; '
+            'one-quantum tolerance for Angle/FixedPoint/legacy sound pitch.',
+            'DESIGN.md §3 C05'),
+    'C07': ('exploration',
+            'differential monitor against an independent protocol table and '
+            'encoder (both directions, byte-exact)',
+            '30 release protocols x 20 core packets x boundary values: real '
+            'write bytes == reference frame; real read of reference bytes == '
+            'values, exact consumption; ids from the documented table.',
+            'vf.ref.core_packets is a transcription of the protocol '
+            'documentation (DESIGN.md Appendix A).',
+            'DESIGN.md §3 C07'),
     'C02': ('exploration',
             'runtime monitor: recording sink + counting stream + step budget '
             'around the real codecs; independent wire-type oracle; prefix rule',
